@@ -238,6 +238,8 @@ class Tree:
         props = {}
         if kind == "submodule":
             props = dict(ancestor=_name(u.ancestor_module), parent_submodule=_name(u.parent_submodule))
+        if kind == "program":
+            props["calls"] = sorted({(getattr(c, "name", c) or "").lower() for c in getattr(u, "calls", []) or []})
         sub = self.add(path, kind, u.name, _obj=u, **props)
         self.unit_body(u, sub)
 
